@@ -197,6 +197,10 @@ def run(ctx):
                                 l1 = xitorch.interpolate.Interp1D(xt, yt, method="linear")(xq)
                                 l2 = xitorch.interpolate.Interp1D(xt[perm], method="linear")(xq, yt[perm])
                                 l3 = xitorch.interpolate.Interp1D(xt[perm], yt[perm], method="linear")(xq.flip(0)).flip(0)
+                                l4 = xitorch.interpolate.Interp1D(xt, yt, method="linear", assume_sorted=True)(xq)
+                                s4 = xitorch.interpolate.Interp1D(xt, yt, method="cspline", bc_type=bc, assume_sorted=True)(xq)
+                                if why is None and not (torch.equal(l4, l1) and torch.allclose(s4, a, atol=1e-13)):
+                                    why = "assume_sorted=True on sorted samples changes the result"
                                 lref = torch.tensor(np.interp(xq.numpy(), xs, yb), dtype=DT)
                                 if why is None and not (torch.allclose(l1, lref, atol=1e-12) and torch.allclose(l2, lref, atol=1e-12) and torch.allclose(l3, lref, atol=1e-12)):
                                     why = "linear method on sorted / shuffled samples (y at init or call) differs from numpy.interp"
